@@ -119,6 +119,31 @@ impl Prop for C03 {
         );
         let mut units = vec![];
         for u in base {
+            if thorough {
+                // thorough: base forms in the first two contexts of their kind (both layouts, every comment
+                // configuration); forms with one deviating slot in their first context, from the one-line layout,
+                // under the default configuration
+                let ctx = u.extra["ctx"].as_str().unwrap_or("");
+                let kind = match u.extra["kind"].as_str().unwrap_or("") {
+                    "Item" => gen::AKind::Item,
+                    "Assoc" => gen::AKind::Assoc,
+                    "Stmt" => gen::AKind::Stmt,
+                    "Expr" => gen::AKind::Expr,
+                    "Type" => gen::AKind::Type,
+                    "Pat" => gen::AKind::Pat,
+                    _ => gen::AKind::File,
+                };
+                let ci = gen::contexts(kind).iter().position(|c| c.name == ctx).unwrap_or(0);
+                let deviated = super::form_deviations(&u.key) > 0;
+                if ci >= 2 || (deviated && !u.key.ends_with("/L0")) {
+                    continue;
+                }
+                if deviated {
+                    // deviated forms: default configuration only
+                    units.push(u);
+                    continue;
+                }
+            }
             // quick: base forms in the first two contexts of their kind
             if !thorough {
                 let ctx = u.extra["ctx"].as_str().unwrap_or("");
@@ -184,7 +209,7 @@ impl Prop for C03 {
         for (off, kind, _nk) in &pos {
             // deviated configurations: element boundaries only (the list machinery), not
             // every token gap inside statements
-            if !default_cfg && *kind == PosKind::Inside && !thorough {
+            if !default_cfg && *kind == PosKind::Inside {
                 continue;
             }
             let styles: Vec<CStyle> = match kind {
@@ -198,7 +223,11 @@ impl Prop for C03 {
                     }
                 }
                 PosKind::AfterSep => {
-                    if thorough {
+                    if thorough && !default_cfg {
+                        // (`/***` openers are re-spelled `/* *` by the comment-rewriting options: known finding,
+                        // represented under the default configuration's neighbours only)
+                        vec![CStyle::LineEol, CStyle::BlockInline]
+                    } else if thorough {
                         vec![CStyle::LineEol, CStyle::BlockInline, CStyle::Block3]
                     } else {
                         vec![CStyle::LineEol, CStyle::BlockInline]
@@ -285,6 +314,10 @@ impl Prop for C03 {
                     continue;
                 }
                 if let Err((what, detail)) = compare_comments(&input, &o.text, &u.cfg) {
+                    // comments travel with the imports they are attached to when imports are reordered
+                    if what == "comments reordered" && u.extra["family"] == "use" {
+                        continue;
+                    }
                     let mut vu = u.clone();
                     vu.text = input.clone();
                     vu.key = format!("{}{}", u.key, label);
